@@ -109,8 +109,8 @@ PROPS = {
         level="fault_enumeration",
         rule="rapid histories against a real controller with refresh period 1-5 ms and gated lists on the fake API server: per case 2-8 relists, each preceded by generated server changes (5 keys, labels moving objects across the controller filter) and overlapped by changes made while the list is in flight; the snapshot returned is the one taken at call or at release (generated); watch mode in {never connects, faithful, faulty: per-session generated plans of status / bookmark / unknown-type frames, dropped and duplicated events, stream closes, connect errors}; controller filter from a 6-element family. The Watch call at the list's resourceVersion is held by the fake until the cache has been inspected. Oracle: per key, cache value in Allowed(k) (see c03_test.go), cached objects satisfy the filter, the unfiltered subscriber's strict mirror converges to the cache while the Watch is held, and after the history stops one further relist yields exact equality with the server's accepted objects. Non-trivial = >= 3 completed relists, at least one changing the cache, and a fault / in-flight event / dead watch; distinct = hash of history.",
         assumptions=["relist completion is observed without hooks as the Watch(resourceVersion = list RV) call that follows cache.sync and event distribution", "Allowed(k) is a superset of the reachable outcomes (dropped events are treated as deliverable): never a false alarm, may accept an outcome a stricter oracle would refuse"],
-        quick=[J("TestC03_Relists", checks=250, shards=8, procs=[2, 4, 8, 16])],
-        thorough=[J("TestC03_Relists", checks=8000, shards=16, procs=[1, 2, 4, 8, 16], timeout=2400)],
+        quick=[J("TestC03_Relists", checks=250, shards=8, procs=[2, 4, 8, 16]), J("TestC03_Backlog", checks=30, shards=6, procs=[2, 4, 16, 1, 8, 2])],
+        thorough=[J("TestC03_Relists", checks=8000, shards=16, procs=[1, 2, 4, 8, 16], timeout=2400), J("TestC03_Backlog", checks=800, shards=12, procs=[1, 2, 4, 8, 16], timeout=2400)],
     ),
     "C16": dict(
         level="exploration",
